@@ -936,6 +936,11 @@ func (a *nilAn) fieldNonNilByStores(f *types.Var, depth int) bool {
 				}
 				n++
 				if s, _, _ := a.status(st.Val, g, b, depth+1); s != nsNonNil {
+					// a constructor storing its parameter: non-nil if every call site passes a
+					// non-nil value
+					if p, ok := resolveLocal(st.Val).(*ssa.Parameter); ok && p.Parent() == g && a.paramNonNilAtCallSites(g, p, depth+1) {
+						continue
+					}
 					return false
 				}
 			}
@@ -946,6 +951,28 @@ func (a *nilAn) fieldNonNilByStores(f *types.Var, depth int) bool {
 	}
 	a.fieldNN[f] = 1
 	return true
+}
+
+// paramNonNilAtCallSites: every static call of fn passes a provably non-nil value for p.
+func (a *nilAn) paramNonNilAtCallSites(fn *ssa.Function, p *ssa.Parameter, depth int) bool {
+	if depth > 4 {
+		return false
+	}
+	idx := paramIndex(fn, p)
+	n := 0
+	for _, g := range a.c.P.ModuleFunctions() {
+		for _, ci := range core.Calls(g) {
+			if ci.Common().StaticCallee() != fn || idx < 0 || idx >= len(ci.Common().Args) {
+				continue
+			}
+			n++
+			arg := ci.Common().Args[idx]
+			if s, _, _ := a.status(arg, g, ci.Block(), depth+1); s != nsNonNil && !a.guarded(arg, g, ci.Block()) {
+				return false
+			}
+		}
+	}
+	return n > 0
 }
 
 // paramFieldGuarded: at every call site of fn the argument for p is a load of a local struct
